@@ -36,6 +36,7 @@ import (
 	"github.com/openconfig/gnmi/ctree"
 	"github.com/openconfig/gnmi/match"
 	"github.com/openconfig/gnmi/path"
+	"github.com/openconfig/gnmi/verifhook"
 
 	pb "github.com/openconfig/gnmi/proto/gnmi"
 )
@@ -308,8 +309,10 @@ func (s *Server) Subscribe(stream pb.GNMI_SubscribeServer) error {
 		if c.sr.GetSubscribe().GetUpdatesOnly() {
 			c.queue.Insert(syncMarker{})
 		}
+		verifhook.Point("sub.pre-register", stream)
 		remove := addSubscription(s.m, c.sr.GetSubscribe(),
 			&matchClient{acl: c.acl, q: c.queue})
+		verifhook.Point("sub.registered", stream)
 		defer remove()
 		if !c.sr.GetSubscribe().GetUpdatesOnly() {
 			go s.processSubscription(&c)
@@ -405,6 +408,7 @@ func (s *Server) processSubscription(c *streamClient) {
 		}
 		log.V(2).Infof("end processSubscription for %p", c)
 	}()
+	verifhook.Point("sub.walk.begin", c.stream)
 	if !c.sr.GetSubscribe().GetUpdatesOnly() {
 		for _, subscription := range c.sr.GetSubscribe().Subscription {
 			var fullPath []string
@@ -427,6 +431,7 @@ func (s *Server) processSubscription(c *streamClient) {
 		}
 	}
 
+	verifhook.Point("sub.walk.end", c.stream)
 	_, err = c.queue.Insert(syncMarker{})
 }
 
@@ -502,6 +507,7 @@ func (s *Server) sendStreamingResults(c *streamClient) {
 		}
 	}()
 	for {
+		verifhook.Point("sub.dequeue", c.stream)
 		item, dup, err := c.queue.Next(ctx)
 		if coalesce.IsClosedQueue(err) {
 			c.errC <- nil
